@@ -756,6 +756,19 @@ func runDrvConfig(t *testing.T, c drvCfg, r *rng, w *caseWriter, tags map[string
 					d.recv(p.frame, p.tag+":"+g.tag)
 				}
 			}
+			// the other address family: an ICMPv6 echo reply with this run's identifier and the probe's sequence number from the
+			// IPv4-MAPPED form of the target (::ffff:a.b.c.d - any on-link IPv6 node can send it; the 'icmp || icmp6' capture
+			// filter lets it in).  It is not a reply of the IPv4 target to an IPv4 echo request.
+			if c.variant == vIcmp && !c.v6 {
+				mapped := func(a [4]byte) (m [16]byte) {
+					m[10], m[11] = 0xff, 0xff
+					copy(m[12:], a[:])
+					return
+				}
+				body := []byte{byte(c.echoID >> 8), byte(c.echoID), 0, byte(s.ttl), byte(s.ttl)}
+				ms, md := mapped(c.t4()), mapped(c.l4())
+				d.recv(buildIP6(ip6Hdr{nh: 58, hlim: 60, src: ms, dst: md, payLen: -1}, buildICMP6(129, 0, body, ms, md)), "echo_reply6_from_v4_mapped_target")
+			}
 			// SACK options whose data is not a whole number of 8-byte blocks (gopacket only checks 2 <= length <= remaining):
 			// a genuine block followed by 1..7 stray bytes, a second SACK option too short to hold a block, an empty one
 			if c.variant == vSack {
